@@ -248,8 +248,8 @@ OpsOf(k, g, d) ==
                                 \cup (IF d = 3 THEN {"cross", "crossm", "crossf"} ELSE {})
     [] k = "B" /\ g = "div"  -> {"div", "diveq"}
     [] k = "S" /\ g = "ring" -> {"smul", "smull", "smuleq", "vectorize", "vectorized", "ctor1", "eqc", "nec", "ltc", "gtc"}
-    [] k = "S" /\ g = "sweep" -> {"sdiv", "sdiveq", "mean"}
-    [] k = "S" /\ g = "sweepmul" -> {"smul", "smull", "smuleq"}
+    [] k = "S" /\ g = "sweep" -> {"sdiv", "sdiveq"}
+    [] k = "S" /\ g = "sweepmul" -> {"smul", "smull", "smuleq", "mean"}          \* small operands only (no overflow)
     [] k = "S" /\ g = "sdiv" -> {"sdiv", "sdiveq"}
     [] k = "U" /\ g = "ring" -> {"neg", "sqrnorm", "l1", "l8", "maxc", "minc", "maxabs", "minabs", "mean", "meanabs",
                                  "get", "data", "iter", "riter", "ctoriter", "ctorn", "copy", "size", "norm", "length",
